@@ -107,6 +107,18 @@ def h7():
     return Tagged, [(Tagged, {}), (Tagged, {"meta": {"x": 1}})]
 
 
+def h8():
+    class Stamp(Object, default={"token": "none"}):
+        token = Property(String(), required=True)
+
+    class Envelope(Object):
+        id = Property(Integer(), required=True)
+        stamp = Property(Stamp, required=True)
+        spare = Property(Stamp)
+
+    return Envelope, [(Envelope, {"id": 1}), (Envelope, {"id": 2, "spare": {"token": "t"}})]
+
+
 def r4():
     el = Element(items=[Integer(), String()], additionalItems=Number())
     return el, [(el, [1, "a", 2]), (el, [1, 2])]
@@ -163,7 +175,7 @@ def h1x2calls():
     return tree, [[calls[0], (tree, {"k": 0, "b": "t"})], [calls[1], (tree, {"k": 2, "b": "u", "zz": 1})]]
 
 
-HARNESSES = {"T1": t1, "T2": t2, "T3": t3, "H3s": h3s, "H5s": h5s, "H1": h1, "H2": h2, "H3": h3, "H4": h4, "H5": h5, "H6": h6, "H7": h7, "R4": r4, "R5": r5, "R6": r6, "H1x3": h1x3, "H1x2": h1x2calls}
+HARNESSES = {"T1": t1, "T2": t2, "T3": t3, "H3s": h3s, "H5s": h5s, "H1": h1, "H2": h2, "H3": h3, "H4": h4, "H5": h5, "H6": h6, "H7": h7, "H8": h8, "R4": r4, "R5": r5, "R6": r6, "H1x3": h1x3, "H1x2": h1x2calls}
 
 
 def make(hname):
@@ -265,11 +277,11 @@ def plan(tier, seed):
     if tier == "quick":
         for h in ("H1", "H2", "H6", "T2", "R4"):
             configs.append((h, "line", 1, None))
-        for h in ("H3s", "H5s", "H4", "H1x3", "H7"):
+        for h in ("H3s", "H5s", "H4", "H1x3", "H7", "H8"):
             configs.append((h, "switch", 1, None))
         configs.append(("T3", "switch", 2, 6))
     else:
-        for h in ("H1", "H2", "H3", "H4", "H5", "H6", "H7", "H1x2", "T2", "R4", "R5", "R6"):
+        for h in ("H1", "H2", "H3", "H4", "H5", "H6", "H7", "H8", "H1x2", "T2", "R4", "R5", "R6"):
             configs.append((h, "line", 1, None))
         configs.append(("H1x3", "switch", 1, None))
         configs.append(("H1x3", "line", 1, None))
